@@ -588,11 +588,40 @@ def handleJudge (p : String) (pt : PT) (params : Assign) (vol : List Name) (ups 
 
 def parseCells (xs : List Sexp) : Option (List Nat) := xs.mapM nat?
 
+partial def parseScope : Sexp → Option Scope
+  | .list [.atom "dict", .list vals, .list vol] => do
+      let vals ← parseAssign vals; let vol ← vol.mapM parseName; pure (.dict vals vol)
+  | .list [.atom "mapped", inner, .list m] => do
+      let inner ← parseScope inner; let m ← parseMapping m; pure (.mapped inner m)
+  | .list [.atom "range", inner, .atom i, v] => do
+      let inner ← parseScope inner; let v ← int? v; pure (.range inner i v)
+  | .list [.atom "joint", ps, cs] => do
+      let ps ← parseScope ps; let cs ← parseScope cs; pure (.joint ps cs)
+  | _ => none
+
+def parseVpos (xs : List Sexp) : Option (List (Nat × RepDef)) :=
+  xs.mapM fun
+    | .list [i, e, sc] => do
+        let i ← nat? i; let e ← parseExpr e; let sc ← parseScope sc; pure (i, RepDef.vol e sc)
+    | _ => none
+
+/-- `(c15 table (<new>) ((cell expr scope)…) (cells…))` → `(ok (cells…) (mods (cell value)…) (deps (names…)…))` -/
+def handleTable (new : Assign) (vpos : List (Nat × RepDef)) (cells : List Nat) : Sexp :=
+  let r := tableUpdate new vpos cells
+  let deps := vpos.map (fun p => match p.2 with
+    | .vol e s => Sexp.list ((dedupNames (e.vars.filter s.isVol)).map atom)
+    | .const _ => Sexp.list [])
+  .list [atom "ok", .list (r.1.map ofNat), .list (r.2.map (fun m => .list [ofNat m.1, ofNat m.2])), .list deps]
+
 def handle : List Sexp → Sexp
   | [.atom "run", .atom p, pt, .list params, .list vol, .list ups] =>
       match parsePT pt, parseAssign params, vol.mapM parseName, parseUpdates ups with
       | some pt, some params, some vol, some ups => handleRun p pt params vol ups
       | _, _, _, _ => err "c15-bad-request"
+  | [.atom "table", .list new, .list vpos, .list cells] =>
+      match parseAssign new, parseVpos vpos, parseCells cells with
+      | some new, some vpos, some cells => handleTable new vpos cells
+      | _, _, _ => err "c15-bad-request"
   | [.atom "flags", pt, .list params, .list vol] =>
       match parsePT pt, parseAssign params, vol.mapM parseName with
       | some pt, some params, some vol => .list [atom "flags", ofBool (pt.inside (.dict params vol))]
